@@ -1009,6 +1009,84 @@ w_sd_agent(const char *fn)
     CK(SDend(sd));
 }
 
+static void
+w_reopen_after_fault(const char *fn)
+{
+    /* whatever the faulted session left behind must be readable (or refused) without a crash */
+    {
+        int32 fid = Hopen(fn, DFACC_CREATE, 0);
+        if (fid == FAIL) {
+            nfail++;
+            return;
+        }
+        int32 aid = HLcreate(fid, 1001, 1, 64, 2);
+        if (aid == FAIL)
+            nfail++;
+        else {
+            CK(Hwrite(aid, 1000, big));
+            CK(Hendaccess(aid));
+        }
+        aid = HXcreate(fid, 1002, 1, "c16_ext.dat", 0, 0);
+        if (aid == FAIL)
+            nfail++;
+        else {
+            CK(Hwrite(aid, 100, big));
+            CK(Hendaccess(aid));
+        }
+        comp_info  ci;
+        model_info mi;
+        ci.deflate.level = 6;
+        aid = HCcreate(fid, 1003, 1, COMP_MODEL_STDIO, &mi, COMP_CODE_DEFLATE, &ci);
+        if (aid == FAIL)
+            nfail++;
+        else {
+            CK(Hwrite(aid, 2000, big));
+            CK(Hendaccess(aid));
+        }
+        CK(Vstart(fid));
+        int32 vs = VSattach(fid, -1, "w");
+        if (vs == FAIL)
+            nfail++;
+        else {
+            CK(VSfdefine(vs, "A", DFNT_INT32, 1));
+            CK(VSsetfields(vs, "A"));
+            CK(VSsetname(vs, "tab"));
+            CK(VSwrite(vs, big, 600, FULL_INTERLACE));
+            CK(VSdetach(vs));
+        }
+        CK(Vend(fid));
+        CK(Hclose(fid));
+    }
+    int a = g_armed;
+    g_armed = 0; /* the second session runs fault free */
+    {
+        int32 fid = Hopen(fn, DFACC_READ, 0);
+        if (fid != FAIL) {
+            for (uint16 t = 1001; t <= 1003; t++) {
+                int32 n = Hlength(fid, t, 1);
+                if (n > 0 && n <= (int32)sizeof rbuf)
+                    (void)Hgetelement(fid, t, 1, rbuf);
+            }
+            if (Vstart(fid) != FAIL) {
+                int32 ref = VSfind(fid, "tab");
+                if (ref > 0) {
+                    int32 vs = VSattach(fid, ref, "r");
+                    if (vs != FAIL) {
+                        if (VSsetfields(vs, "A") != FAIL)
+                            (void)VSread(vs, rbuf, 600, FULL_INTERLACE);
+                        VSdetach(vs);
+                    }
+                }
+                Vend(fid);
+            }
+            Hclose(fid);
+        }
+    }
+    g_armed = a;
+    if (nfail == 0)
+        nfail = 0;
+}
+
 static struct {
     const char *name;
     void (*fn)(const char *);
@@ -1017,7 +1095,7 @@ static struct {
          {"sd_unlim", w_sd_unlimited}, {"gr", w_gr0},         {"gr_deflate", w_gr1}, {"gr_rle", w_gr2},
          {"ext", w_ext},        {"an", w_an},                 {"bits", w_bits2},
          {"sd_nbit_big", w_sd_nbit_big}, {"gr_two", w_gr_two}, {"vs_ext", w_vs_ext}, 
-         {"sd_clobber", w_sd_clobber}, {"sd_update", w_sd_update}, {"read_all", w_read_all}, {"oldatt", w_oldatt}, {"bits_rw", w_bits_rw}, {"ext_dir", w_ext_dir}, {"gr_map", w_gr_map}, {"flush", w_flush}, {"nbit_read", w_nbit_read}, {"sd_meta", w_sd_meta}, {"sd_agent", w_sd_agent}};
+         {"sd_clobber", w_sd_clobber}, {"sd_update", w_sd_update}, {"read_all", w_read_all}, {"oldatt", w_oldatt}, {"bits_rw", w_bits_rw}, {"ext_dir", w_ext_dir}, {"gr_map", w_gr_map}, {"flush", w_flush}, {"nbit_read", w_nbit_read}, {"sd_meta", w_sd_meta}, {"sd_agent", w_sd_agent}, {"reopen", w_reopen_after_fault}};
 
 static unsigned long
 hash_file(const char *fn, long *len)
